@@ -147,6 +147,8 @@ class ClassInfo:
         self.cls, self.name, self.kinds = cls, cls.name, kinds
         self.ann = {}
         self.converter = {}
+        self.noninit = set()      # attrs fields with init=False: not constructor parameters
+        self.post_const = {}      # … and the constant `__attrs_post_init__` stores in them
         for n in cls.body:
             if isinstance(n, ast.AnnAssign) and isinstance(n.target, ast.Name):
                 if 'ClassVar' in ast.unparse(n.annotation) or 'Final' in ast.unparse(n.annotation):
@@ -154,6 +156,8 @@ class ClassInfo:
                 self.ann[n.target.id] = n.annotation
                 if n.value is not None and 'converter=' in ast.unparse(n.value):
                     self.converter[n.target.id] = True
+                if n.value is not None and 'init=False' in ast.unparse(n.value).replace(' ', ''):
+                    self.noninit.add(n.target.id)
         init = _method(cls, '__init__')
         self.init = init
         slots = None
@@ -180,10 +184,17 @@ class ClassInfo:
         else:
             raise ExtractError(f'{cls.name}: cannot find the fields (no __slots__, attrs or __init__)')
         if self.attrs:
-            self.params = list(self.fields)
-            for f in self.fields:
+            init_fields = [f for f in self.fields if f not in self.noninit]
+            for f in init_fields:
                 self.param_field[f.lstrip('_')] = (f, 'fresh' if self.converter.get(f) else 'direct')
-            self.params = [f.lstrip('_') for f in self.fields]
+            self.params = [f.lstrip('_') for f in init_fields]
+            post = _method(cls, '__attrs_post_init__')
+            if post is not None:
+                for st in _walk_stmts(post.body):
+                    if isinstance(st, ast.Assign) and len(st.targets) == 1 and isinstance(st.value, ast.Constant):
+                        f = _self_attr(st.targets[0])
+                        if f in self.noninit:
+                            self.post_const[f] = repr(st.value.value)
         elif init is not None:
             a = init.args
             self.params = [x.arg for x in a.posonlyargs + a.args][1:]
@@ -351,7 +362,11 @@ class Sites:
             kind = info.field_kind(f)
             fs = feeds.get(f, [])
             if not fs:
-                out[f] = ('missing', 'never assigned from the source object')
+                if f in info.post_const and kind == 'imm':
+                    # construction bookkeeping: an init=False field that __attrs_post_init__ sets to a constant
+                    out[f] = ('reset', f'init=False; __attrs_post_init__ sets it to {info.post_const[f]} in every instance')
+                else:
+                    out[f] = ('missing', 'never assigned from the source object')
                 continue
             res = []
             for expr, w in fs:
